@@ -654,6 +654,100 @@ func culprit(hist []hop) string {
 	return strings.Join(ks, "+")
 }
 
+// watchDeadlock guards every concurrent phase against deadlock in the code under test. It never judges
+// by elapsed time alone: a deadlock is reported only when five goroutine dumps taken five seconds apart
+// all show the same goroutines inside ocimem, every one of them parked on a mutex, none running. The
+// goroutines inside ocimem are the only ones that can hold its mutexes; if all of them wait, and it is the
+// same ones each time, nobody is left to release a lock. (A slow machine delays the diagnosis; it cannot
+// produce it: a parked goroutine that is merely waiting its turn sees other goroutines inside ocimem that
+// run, or is itself gone at the next look.) Reporting ends the run: the stuck goroutines never return.
+func watchDeadlock(run *evid.Run) {
+	snapshot := func() (ids string, n int, allParked bool, sample string) {
+		buf := make([]byte, 8<<20)
+		buf = buf[:runtime.Stack(buf, true)]
+		allParked = true
+		var list []string
+		for _, g := range strings.Split(string(buf), "\n\n") {
+			if !strings.Contains(g, "ociregistry/ocimem.") {
+				continue
+			}
+			head, _, _ := strings.Cut(g, "\n")
+			list = append(list, head[:strings.IndexByte(head+"[", '[')])
+			n++
+			if !(strings.Contains(head, "[sync.Mutex.Lock") || strings.Contains(head, "[sync.RWMutex.")) {
+				allParked = false
+			}
+			if len(sample) < 8000 {
+				sample += g + "\n\n"
+			}
+		}
+		sort.Strings(list)
+		return strings.Join(list, ","), n, allParked, sample
+	}
+	go func() {
+		prev, same := "", 0
+		for {
+			time.Sleep(5 * time.Second)
+			ids, n, parked, stacks := snapshot()
+			if n == 0 || !parked || ids != prev {
+				prev, same = ids, 0
+				if n == 0 || !parked {
+					prev = ""
+				}
+				continue
+			}
+			same++
+			if same >= 4 {
+				run.Violation("deadlock", fmt.Sprintf("the same %d goroutines have been parked on mutexes inside ocimem for five looks in a row (20 s) and no goroutine inside ocimem is running: nobody is left to release a lock", n), map[string]any{"goroutines": stacks})
+				run.Finish()
+			}
+		}
+	}()
+}
+
+// commitVersusResume: one goroutine commits (and re-commits) an upload session while others resume it
+// and look at its size. No assertion on results beyond termination and the race detector's view.
+func commitVersusResume(run *evid.Run, round int) {
+	reg := ocimem.New()
+	content := []byte(fmt.Sprintf("session content %d", round))
+	w, err := reg.PushBlobChunked(bg, "cv", 0)
+	if err != nil {
+		run.Inconclusive("commit-versus-resume setup: " + err.Error())
+		return
+	}
+	w.Write(content)
+	id := w.ID()
+	d := ociregistry.Digest(model.Digest(content))
+	var progress atomic.Int64
+	const resumers = 3
+	var wg sync.WaitGroup
+	wg.Add(1)
+	go func() {
+		defer wg.Done()
+		for i := 0; i < 40; i++ {
+			w.Commit(d)
+			progress.Add(1)
+		}
+	}()
+	for g := 0; g < resumers; g++ {
+		wg.Add(1)
+		go func() {
+			defer wg.Done()
+			for i := 0; i < 150; i++ {
+				if w2, err := reg.PushBlobChunkedResume(bg, "cv", id, -1, 0); err == nil {
+					w2.Size()
+				}
+				reg.ResolveBlob(bg, "cv", d)
+				progress.Add(1)
+			}
+		}()
+	}
+	wg.Wait()
+	run.Eval(1)
+	run.Count("commit_versus_resume_rounds", 1)
+	run.Distinct("stress/commit-versus-resume")
+}
+
 // ---------- 4. race stress
 
 func stressDirect(run *evid.Run, round int, reg ociregistry.Interface, mode string, nG, nOps int) {
@@ -810,6 +904,7 @@ func main() {
 	run.Assume("porcupine is applied to direct-call histories only; over HTTP only the race detector and the named invariants apply")
 	run.Assume("a concurrent history uses at most one Commit per upload session and no Cancel (behaviour of a session after commit/cancel is not part of the property)")
 
+	watchDeadlock(run)
 	forcedCommitWindow(run, run.N(50, 2000))
 
 	procs := []int{2, 4, 16}
@@ -861,6 +956,10 @@ func main() {
 		}
 	}
 	runtime.GOMAXPROCS(16)
+	for r, n := 0, run.N(40, 1500); r < n; r++ {
+		commitVersusResume(run, r)
+	}
+	run.FloorCounter("commit_versus_resume_rounds", 40)
 
 	run.FloorCounter("forced_windows_hit", run.N(50, 2000))
 	run.FloorCounter("overlapping_pairs", 1000)
